@@ -50,11 +50,14 @@ var typeStems = []string{"Alpha", "Bravo", "Cargo", "Delta", "Ember", "Flint", "
 var fieldStems = []string{"amber", "birch", "cedar", "dune", "elm", "fern", "glade", "heath", "iris", "juniper", "kelp", "larch", "moss", "nettle", "oak", "pine", "quartz", "reed", "sage", "thyme", "umber", "vine", "willow", "yarrow", "zinnia",
 	"first_name", "user_id", "homeURL", "http_port", "x", "k2", "maxQPS", "node_ip", "RawData", "Snake_Mixed"}
 var itemStems = []string{"RED", "GREEN", "BLUE", "DARK_RED", "Cyan", "magenta", "light_blue", "X1", "NONE", "MAX_VALUE", "lowerCamel", "UpperCamel"}
-var fileStems = []string{"apple", "banana", "cherry", "dates", "elder", "figs", "grape", "hazel",
-	// legal file names whose Go package is called like a local variable of the generated code or like
-	// a package the generated code imports (F24, F26, F27)
-	"v", "err", "fmt", "init", "x", "i", "w", "sr", "sw", "rhs", "lhs", "result", "success", "e", "value", "key", "ok", "text", "enc",
-	"strings", "errors", "bytes", "wire", "stream", "ptr", "math", "strconv", "s", "t", "d", "f", "k", "o", "l", "m"}
+var fileStems = []string{"apple", "banana", "cherry", "dates", "elder", "figs", "grape", "hazel"}
+
+// trickyFileStems: legal file names whose Go package is called like a local variable of the
+// generated code or like a package the generated code imports (F24, F26, F27, F29). Half of the
+// files of the safe pool are called like this.
+var trickyFileStems = []string{"v", "err", "fmt", "init", "x", "i", "j", "w", "sr", "sw", "rhs", "lhs", "result", "success", "e", "value", "key", "ok", "text", "enc",
+	"strings", "errors", "bytes", "wire", "stream", "ptr", "math", "strconv", "s", "t", "d", "f", "k", "o", "l", "m", "y", "lh", "mh", "sh", "fh", "kw", "vw", "val", "count", "field", "fields", "request",
+	"json", "zapcore", "multierr", "base64", "thriftreflect"}
 var funcStems = []string{"getThing", "put", "list_all", "remove", "ping", "compute", "fetchURL", "do_it"}
 
 var hostileTypes = []string{"String", "Error", "ToWire", "FromWire", "Equals", "Ptr", "Type", "Value", "List_X", "ListX", "HTTPServer", "HttpServer", "Http_Server", "Foo_Bar", "FooBar", "Default_Foo", "Foo", "Foo_Values", "MarshalLogObject", "Svc_Do_Args", "Svc_Do_Result", "Svc_Do_Helper", "ThriftModule", "Map_String_String", "MapStringString", "Enum", "Struct", "Reader", "Writer", "Wire", "Stream", "Errors", "Fmt", "ID", "Id", "URL", "Url", "lowercase", "x", "X", "T", "Interface"}
@@ -133,6 +136,9 @@ func pickStr(g *gctx, ss []string, what string) string {
 				return name
 			}
 		}
+	}
+	if what == "fstem" && g.chance(1, 2, "fstem_tricky") {
+		return trickyFileStems[g.intn(0, len(trickyFileStems)-1, "fstem_t")]
 	}
 	return ss[g.intn(0, len(ss)-1, what)]
 }
